@@ -9,6 +9,18 @@ use paseto_core::{LocalKey, PasetoError, PublicKey, SecretKey};
 use crate::backends::Full;
 use crate::payload::Raw;
 
+thread_local! {
+    static CLONE_KEYS: std::cell::Cell<bool> = const { std::cell::Cell::new(false) };
+}
+/// Odd-numbered cases of every sub hand a *clone* of each key object to the library (keys are routinely cloned into
+/// workers and request handlers): a `Clone` impl that yields a key which is not equivalent shows up in every check.
+pub fn set_clone_keys(on: bool) {
+    CLONE_KEYS.with(|c| c.set(on));
+}
+fn held<K: Clone>(k: &K) -> std::borrow::Cow<'_, K> {
+    if CLONE_KEYS.with(|c| c.get()) { std::borrow::Cow::Owned(k.clone()) } else { std::borrow::Cow::Borrowed(k) }
+}
+
 #[derive(Clone, Debug)]
 pub enum Nonce {
     /// library randomness: `encrypt` / `sign`
@@ -18,6 +30,8 @@ pub enum Nonce {
 }
 
 pub fn seal_local_with<V: Full, M: Payload, F: Footer>(k: &LocalKey<V>, m: M, f: F, aad: &[u8], n: &Nonce) -> Result<SealedToken<V, Local, M, F>, PasetoError> {
+    let k = held(k);
+    let k = &*k;
     crate::perturb::between();
     let t = UnsealedToken::<V, Local, M>::new(m).with_footer(f);
     match n {
@@ -27,6 +41,8 @@ pub fn seal_local_with<V: Full, M: Payload, F: Footer>(k: &LocalKey<V>, m: M, f:
 }
 
 pub fn seal_public_with<V: Full, M: Payload, F: Footer>(k: &SecretKey<V>, m: M, f: F, aad: &[u8], n: &Nonce) -> Result<SealedToken<V, Public, M, F>, PasetoError> {
+    let k = held(k);
+    let k = &*k;
     crate::perturb::between();
     let t = UnsealedToken::<V, Public, M>::new(m).with_footer(f);
     match n {
@@ -52,6 +68,8 @@ pub fn sign<V: Full>(k: &SecretKey<V>, msg: &[u8], footer: Option<&[u8]>, aad: &
 
 /// parse as a raw-payload / byte-footer token and decrypt
 pub fn dec<V: Full>(k: &LocalKey<V>, token: &str, aad: &[u8]) -> Result<(Vec<u8>, Vec<u8>), PasetoError> {
+    let k = held(k);
+    let k = &*k;
     crate::perturb::between();
     let t: SealedToken<V, Local, Raw, Vec<u8>> = token.parse()?;
     let u = t.decrypt_with_aad(k, aad, &NoValidation::dangerous_no_validation())?;
@@ -59,6 +77,8 @@ pub fn dec<V: Full>(k: &LocalKey<V>, token: &str, aad: &[u8]) -> Result<(Vec<u8>
 }
 
 pub fn verify<V: Full>(k: &PublicKey<V>, token: &str, aad: &[u8]) -> Result<(Vec<u8>, Vec<u8>), PasetoError> {
+    let k = held(k);
+    let k = &*k;
     crate::perturb::between();
     let t: SealedToken<V, Public, Raw, Vec<u8>> = token.parse()?;
     let u = t.verify_with_aad(k, aad, &NoValidation::dangerous_no_validation())?;
@@ -67,12 +87,16 @@ pub fn verify<V: Full>(k: &PublicKey<V>, token: &str, aad: &[u8]) -> Result<(Vec
 
 /// parse with the `()` footer type (token must have no footer) and decrypt
 pub fn dec_nofooter<V: Full>(k: &LocalKey<V>, token: &str, aad: &[u8]) -> Result<Vec<u8>, PasetoError> {
+    let k = held(k);
+    let k = &*k;
     let t: SealedToken<V, Local, Raw, ()> = token.parse()?;
     let u = t.decrypt_with_aad(k, aad, &NoValidation::dangerous_no_validation())?;
     Ok(u.claims.0)
 }
 
 pub fn verify_nofooter<V: Full>(k: &PublicKey<V>, token: &str, aad: &[u8]) -> Result<Vec<u8>, PasetoError> {
+    let k = held(k);
+    let k = &*k;
     let t: SealedToken<V, Public, Raw, ()> = token.parse()?;
     let u = t.verify_with_aad(k, aad, &NoValidation::dangerous_no_validation())?;
     Ok(u.claims.0)
